@@ -8,39 +8,52 @@
 (* slots; workerChan, statsChan unbuffered (a send and the matching receive are  *)
 (* ONE joint action); done is only ever closed.  Sending on / closing a closed   *)
 (* channel is an explicit error state.                                           *)
+(* Several consecutive runs made with ONE Method value are part of the model:     *)
+(* ReInit starts the next run from the state of Init (MaxRuns).                  *)
 (* Shared by C09 (no deadlock, termination, callbacks counted exactly once, no   *)
 (* goroutine left behind) and C19 (counters = callbacks, limits + slack, status  *)
 (* names the stopping condition).                                                *)
 EXTENDS Integers, Sequences, FiniteSets, TLC
 
 CONSTANTS NT,        \* number of tasks = number of workers (Settings.Concurrent)
-          MaxSends,  \* bound on the number of tasks the method sends
+          MaxSends,  \* bound on the number of tasks the method sends (per run)
           FLimit,    \* Settings.FuncEvaluations (0: none)
+          GLimit,    \* Settings.GradEvaluations (0: none)
+          HLimit,    \* Settings.HessEvaluations (0: none)
           ILimit,    \* Settings.MajorIterations (0: none)
-          Causes     \* environment-controlled stop causes: subset of {"converge","recerr","mdone","probstatus"}
+          Causes,    \* environment-controlled stop causes: subset of {"converge","recerr","mdone","probstatus"}
+          Kinds,     \* kinds of evaluation the method may ask for: subset of 0..7, bit 0 = Func, bit 1 = Grad, bit 2 = Hess
+          MaxRuns    \* number of consecutive Minimize calls made with ONE Method value (re-Init)
 
 Ids == 1 .. NT
 Wk  == 1 .. NT
-\* a task: id = the token (Location) it carries, op its operation, f = 1 iff an evaluation
-\* includes the objective function (FuncEvaluation bit), so that Func is called and counted
-None == [id |-> 0, op |-> "none", f |-> 0]
-Post == [id |-> 0, op |-> "post", f |-> 0]
-SigDone == [id |-> 0, op |-> "sigdone", f |-> 0]
-Fbits == {0, 1}
+\* a task: id = the token (Location) it carries, op its operation; f / g / h = 1 iff an evaluation
+\* includes the objective function / gradient / Hessian (FuncEvaluation, GradEvaluation,
+\* HessEvaluation bits), so that Func / Grad / Hess is called and counted.  Kind 0 stands for
+\* an evaluation none of whose callbacks is tracked by the configuration at hand.
+None == [id |-> 0, op |-> "none", f |-> 0, g |-> 0, h |-> 0]
+Post == [id |-> 0, op |-> "post", f |-> 0, g |-> 0, h |-> 0]
+SigDone == [id |-> 0, op |-> "sigdone", f |-> 0, g |-> 0, h |-> 0]
+NoKind == 0
 
 VARIABLES ops, opsClosed, res, resClosed, doneClosed, wcClosed, scClosed,   \* channels
           mheld, mstate, msends,                                            \* method
           dpc, dtask,                                                       \* distributor
           wpc, wtask,                                                       \* workers
           spc, stask, sstatus, workersDone,                                 \* stats combiner
-          statsF, callsF, iters, posts, final, err                          \* bookkeeping / history
+          statsF, statsG, statsH,                                           \* Stats.*Evaluations
+          callsF, callsG, callsH,                                           \* callbacks really made
+          iters, posts, final, err,                                         \* bookkeeping / history
+          run                                                               \* number of the run on this Method value
 
 chans == <<ops, opsClosed, res, resClosed, doneClosed, wcClosed, scClosed>>
 meth  == <<mheld, mstate, msends>>
 dist  == <<dpc, dtask>>
 work  == <<wpc, wtask>>
 stat  == <<spc, stask, sstatus, workersDone>>
-hist  == <<statsF, callsF, iters, posts, final, err>>
+stats3 == <<statsF, statsG, statsH>>
+calls3 == <<callsF, callsG, callsH>>
+hist  == <<stats3, calls3, iters, posts, final, err, run>>
 vars  == <<chans, meth, dist, work, stat, hist>>
 
 Init ==
@@ -50,7 +63,24 @@ Init ==
     /\ dpc = "select" /\ dtask = None
     /\ wpc = [w \in Wk |-> "recv"] /\ wtask = [w \in Wk |-> None]
     /\ spc = "recv" /\ stask = None /\ sstatus = "none" /\ workersDone = 0
-    /\ statsF = 0 /\ callsF = 0 /\ iters = 0 /\ posts = 0 /\ final = "none" /\ err = "none"
+    /\ statsF = 0 /\ statsG = 0 /\ statsH = 0 /\ callsF = 0 /\ callsG = 0 /\ callsH = 0
+    /\ iters = 0 /\ posts = 0 /\ final = "none" /\ err = "none"
+    /\ run = 1
+
+\* The protocol state at the start of ANOTHER run made with the same Method value: exactly the
+\* state of Init.  Minimize makes new channels, a new distributor, new workers and new Stats on
+\* every call, Method.Init must bring the method back to "run" with no send made, and Run is
+\* handed the new tasks; nothing of the previous run - a task in flight when it was stopped,
+\* a MajorIteration the method still wanted to announce, a terminated status - survives.
+FreshRun ==
+    /\ ops' = <<>> /\ opsClosed' = FALSE /\ res' = <<>> /\ resClosed' = FALSE
+    /\ doneClosed' = FALSE /\ wcClosed' = FALSE /\ scClosed' = FALSE
+    /\ mheld' = Ids /\ mstate' = "run" /\ msends' = 0
+    /\ dpc' = "select" /\ dtask' = None
+    /\ wpc' = [w \in Wk |-> "recv"] /\ wtask' = [w \in Wk |-> None]
+    /\ spc' = "recv" /\ stask' = None /\ sstatus' = "none" /\ workersDone' = 0
+    /\ statsF' = 0 /\ statsG' = 0 /\ statsH' = 0 /\ callsF' = 0 /\ callsG' = 0 /\ callsH' = 0
+    /\ iters' = 0 /\ posts' = 0 /\ final' = "none" /\ err' = "none"
 
 (******************************** the Method *********************************)
 \* Contract (doc of Method.Run): sends only tasks it holds; after PostIteration
@@ -66,14 +96,14 @@ OpsSend(t) ==
     /\ IF opsClosed THEN err' = "send on closed operations" /\ UNCHANGED ops
        ELSE ops' = Append(ops, t) /\ UNCHANGED err
 
-MSend(i, o, fb) ==
+MSend(i, o, k) ==
     /\ mstate \in {"run", "post"} /\ i \in mheld /\ msends < MaxSends /\ o \in AllowedOps
-    /\ (o # "eval" => fb = 0)
-    /\ OpsSend([id |-> i, op |-> o, f |-> fb])
+    /\ IF o = "eval" THEN k \in Kinds ELSE k = NoKind
+    /\ OpsSend([id |-> i, op |-> o, f |-> k % 2, g |-> (k \div 2) % 2, h |-> k \div 4])
     /\ mheld' = mheld \ {i} /\ msends' = msends + 1
     /\ mstate' = IF o = "mdone" THEN "sentdone" ELSE mstate
     /\ UNCHANGED <<opsClosed, res, resClosed, doneClosed, wcClosed, scClosed, dist, work, stat,
-                   statsF, callsF, iters, posts, final>>
+                   stats3, calls3, iters, posts, final, run>>
 
 MRecv ==
     /\ mstate # "closed" /\ res # <<>>
@@ -100,7 +130,7 @@ DSelectOp ==
 DSelectClosed ==
     /\ dpc = "select" /\ ops = <<>> /\ opsClosed
     /\ err' = "distributor received from closed operations before done"
-    /\ UNCHANGED <<chans, meth, dist, work, stat, statsF, callsF, iters, posts, final>>
+    /\ UNCHANGED <<chans, meth, dist, work, stat, stats3, calls3, iters, posts, final, run>>
 
 DSelectDone ==
     /\ dpc = "select" /\ doneClosed
@@ -114,7 +144,7 @@ DSendStats ==
     /\ stask' = dtask /\ spc' = "proc"
     /\ dpc' = IF dpc = "sendStats" THEN "select" ELSE "drain"
     /\ dtask' = None
-    /\ UNCHANGED <<chans, meth, work, sstatus, workersDone, statsF, callsF, iters, posts, final>>
+    /\ UNCHANGED <<chans, meth, work, sstatus, workersDone, stats3, calls3, iters, posts, final, run>>
 
 \* workerChan <- task : joint with worker w's receive
 DSendWorker(w) ==
@@ -138,16 +168,17 @@ DDrainEnd ==
 (********************************* workers ***********************************)
 WEval(w) ==
     /\ wpc[w] = "eval"
-    /\ callsF' = callsF + wtask[w].f             \* the user callback runs exactly here
+    /\ callsF' = callsF + wtask[w].f             \* the user callbacks run exactly here
+    /\ callsG' = callsG + wtask[w].g /\ callsH' = callsH + wtask[w].h
     /\ wpc' = [wpc EXCEPT ![w] = "send"]
-    /\ UNCHANGED <<chans, meth, dist, wtask, stat, statsF, iters, posts, final, err>>
+    /\ UNCHANGED <<chans, meth, dist, wtask, stat, stats3, iters, posts, final, err, run>>
 
 WSend(w) ==
     /\ wpc[w] = "send" /\ spc = "recv"
     /\ IF scClosed THEN err' = "send on closed statsChan" ELSE UNCHANGED err
     /\ stask' = wtask[w] /\ spc' = "proc"
     /\ wpc' = [wpc EXCEPT ![w] = "recv"] /\ wtask' = [wtask EXCEPT ![w] = None]
-    /\ UNCHANGED <<chans, meth, dist, sstatus, workersDone, statsF, callsF, iters, posts, final>>
+    /\ UNCHANGED <<chans, meth, dist, sstatus, workersDone, stats3, calls3, iters, posts, final, run>>
 
 WClosed(w) ==
     /\ wpc[w] = "recv" /\ wcClosed /\ dpc # "sendWorker"
@@ -159,43 +190,49 @@ WSendDone(w) ==
     /\ IF scClosed THEN err' = "send on closed statsChan" ELSE UNCHANGED err
     /\ stask' = SigDone /\ spc' = "proc"
     /\ wpc' = [wpc EXCEPT ![w] = "exit"]
-    /\ UNCHANGED <<chans, meth, dist, wtask, sstatus, workersDone, statsF, callsF, iters, posts, final>>
+    /\ UNCHANGED <<chans, meth, dist, wtask, sstatus, workersDone, stats3, calls3, iters, posts, final, run>>
 
 (****************************** stats combiner *******************************)
 WithRecL(S, causes) == IF "none" \in S /\ "recerr" \in causes THEN S \cup {"fail"} ELSE S
 
-\* Problem.Status is consulted first, then the evaluation limit; a Recorder error turns
+\* the evaluation limits that have been reached (Settings: "... status is returned if the total
+\* number of calls to Func / Grad / Hess equals or exceeds this number"); when several are reached
+\* at the same evaluation any of their names is a true statement about the stopping condition
+Reached(f, g, h, fl, gl, hl) ==
+    (IF fl > 0 /\ f >= fl THEN {"flimit"} ELSE {}) \cup (IF gl > 0 /\ g >= gl THEN {"glimit"} ELSE {})
+    \cup (IF hl > 0 /\ h >= hl THEN {"hlimit"} ELSE {})
+\* Problem.Status is consulted first, then the evaluation limits; a Recorder error turns
 \* a non-terminating step into Failure
-EvalStatusL(f, fl, causes) ==
-    WithRecL((IF fl > 0 /\ f >= fl THEN {"flimit"} ELSE {"none"})
+EvalStatusL(f, g, h, fl, gl, hl, causes) ==
+    WithRecL((IF Reached(f, g, h, fl, gl, hl) = {} THEN {"none"} ELSE Reached(f, g, h, fl, gl, hl))
              \cup (IF "probstatus" \in causes THEN {"probstatus"} ELSE {}), causes)
 \* convergence tests first, then the iteration limit
 MajorStatusL(k, il, causes) ==
     WithRecL((IF il > 0 /\ k >= il THEN {"ilimit"} ELSE {"none"})
              \cup (IF "converge" \in causes THEN {"converged"} ELSE {}), causes)
 
-SProcL(fl, il, causes) ==
+SProcL(fl, gl, hl, il, causes) ==
     /\ spc = "proc"
     /\ CASE stask.op = "eval" ->
-              /\ statsF' = statsF + stask.f
-              /\ sstatus' \in EvalStatusL(statsF + stask.f, fl, causes)
+              /\ statsF' = statsF + stask.f /\ statsG' = statsG + stask.g /\ statsH' = statsH + stask.h
+              /\ sstatus' \in EvalStatusL(statsF + stask.f, statsG + stask.g, statsH + stask.h, fl, gl, hl, causes)
               /\ spc' = "post" /\ UNCHANGED <<workersDone, resClosed, iters>>
          [] stask.op = "sigdone" ->
               /\ workersDone' = workersDone + 1
               /\ resClosed' = (resClosed \/ workersDone + 1 = NT)
-              /\ spc' = "recv" /\ UNCHANGED <<statsF, sstatus, iters>>
+              /\ spc' = "recv" /\ UNCHANGED <<stats3, sstatus, iters>>
          [] stask.op = "noop" ->
               /\ sstatus' \in (IF sstatus = "none" THEN WithRecL({"none"}, causes) ELSE {sstatus})
-              /\ spc' = "post" /\ UNCHANGED <<statsF, workersDone, resClosed, iters>>
+              /\ spc' = "post" /\ UNCHANGED <<stats3, workersDone, resClosed, iters>>
          [] stask.op = "major" ->
               /\ iters' = iters + 1
               /\ sstatus' \in MajorStatusL(iters + 1, il, causes)
-              /\ spc' = "post" /\ UNCHANGED <<statsF, workersDone, resClosed>>
+              /\ spc' = "post" /\ UNCHANGED <<stats3, workersDone, resClosed>>
          [] stask.op = "mdone" ->
               /\ sstatus' = "mconv"
-              /\ spc' = "post" /\ UNCHANGED <<statsF, workersDone, resClosed, iters>>
+              /\ spc' = "post" /\ UNCHANGED <<stats3, workersDone, resClosed, iters>>
     /\ UNCHANGED <<ops, opsClosed, res, doneClosed, wcClosed, scClosed, meth, dist, work, stask,
-                   callsF, posts, final, err>>
+                   calls3, posts, final, err, run>>
 
 \* first termination: results <- PostIteration ; close(done)
 SPost ==
@@ -208,7 +245,7 @@ SPost ==
        ELSE UNCHANGED <<res, doneClosed, final, posts, err>>
     /\ spc' = "back"
     /\ UNCHANGED <<ops, opsClosed, resClosed, wcClosed, scClosed, meth, dist, work, stask, sstatus,
-                   workersDone, statsF, callsF, iters>>
+                   workersDone, stats3, calls3, iters, run>>
 
 \* results <- task  (only while workers are still active, never the MethodDone task)
 SBack ==
@@ -220,9 +257,9 @@ SBack ==
        ELSE UNCHANGED <<res, err>>
     /\ spc' = "recv" /\ stask' = None
     /\ UNCHANGED <<ops, opsClosed, resClosed, doneClosed, wcClosed, scClosed, meth, dist, work, sstatus,
-                   workersDone, statsF, callsF, iters, posts, final>>
+                   workersDone, stats3, calls3, iters, posts, final, run>>
 
-SProc == SProcL(FLimit, ILimit, Causes)
+SProc == SProcL(FLimit, GLimit, HLimit, ILimit, Causes)
 
 SExit ==
     /\ spc = "recv" /\ scClosed
@@ -230,25 +267,31 @@ SExit ==
     /\ UNCHANGED <<chans, meth, dist, work, stask, sstatus, workersDone, hist>>
 
 AllDone == mstate = "closed" /\ dpc = "exit" /\ spc = "exit" /\ \A w \in Wk : wpc[w] = "exit"
-Finished == AllDone /\ UNCHANGED vars
+LastDone == AllDone /\ run >= MaxRuns
+Finished == LastDone /\ UNCHANGED vars
 
-MethodNext == MRecv \/ MClose \/ \E i \in Ids, o \in {"eval", "major", "noop", "mdone"}, fb \in Fbits : MSend(i, o, fb)
+\* Minimize is called again with the Method value of the run that has just returned
+ReInit == /\ AllDone /\ run < MaxRuns
+          /\ FreshRun /\ run' = run + 1
+
+MethodNext == MRecv \/ MClose \/ \E i \in Ids, o \in {"eval", "major", "noop", "mdone"}, k \in Kinds \cup {NoKind} : MSend(i, o, k)
 DistNext   == DSelectOp \/ DSelectClosed \/ DSelectDone \/ DSendStats \/ DDrainOp \/ DDrainEnd
               \/ \E w \in Wk : DSendWorker(w)
 WorkNext   == \E w \in Wk : WEval(w) \/ WSend(w) \/ WClosed(w) \/ WSendDone(w)
 StatsNext  == SProc \/ SPost \/ SBack \/ SExit
 
-Next == MethodNext \/ DistNext \/ WorkNext \/ StatsNext \/ Finished
+Next == MethodNext \/ DistNext \/ WorkNext \/ StatsNext \/ ReInit \/ Finished
 
 Fairness == /\ WF_vars(MethodNext) /\ WF_vars(DistNext) /\ WF_vars(StatsNext)
             /\ \A w \in Wk : WF_vars(WEval(w) \/ WSend(w) \/ WClosed(w) \/ WSendDone(w))
             /\ SF_vars(DSelectDone)      \* the select between operations and done is fair
+            /\ WF_vars(ReInit)
 Spec == Init /\ [][Next]_vars /\ Fairness
 
 (******************************** properties *********************************)
 TypeOK == /\ Len(ops) <= NT /\ Len(res) <= NT
           /\ mheld \subseteq Ids /\ workersDone \in 0 .. NT
-          /\ mstate \in {"run", "sentdone", "post", "closed"}
+          /\ mstate \in {"run", "sentdone", "post", "closed"} /\ run \in 1 .. (IF MaxRuns > 1 THEN MaxRuns ELSE 1)
 NoError == err = "none"
 PostOnce == posts <= 1 /\ (AllDone => posts = 1) /\ (doneClosed <=> posts = 1)
 CloseOrder == /\ resClosed => \A w \in Wk : wpc[w] = "exit"      \* all results delivered first
@@ -257,17 +300,27 @@ CloseOrder == /\ resClosed => \A w \in Wk : wpc[w] = "exit"      \* all results 
               /\ wcClosed => doneClosed
 \* every user callback is counted exactly once (C09: "call the user function the documented number
 \* of times"; C19: "counters equal the number of callbacks made")
-Counters == statsF <= callsF /\ (AllDone => statsF = callsF)
-\* documented concurrency slack of the evaluation limit
-Overshoot == FLimit > 0 => statsF <= FLimit + NT - 1
+Counters == /\ statsF <= callsF /\ statsG <= callsG /\ statsH <= callsH
+            /\ (AllDone => statsF = callsF /\ statsG = callsG /\ statsH = callsH)
+\* documented concurrency slack of the evaluation limits
+Overshoot == /\ (FLimit > 0 => statsF <= FLimit + NT - 1)
+             /\ (GLimit > 0 => statsG <= GLimit + NT - 1)
+             /\ (HLimit > 0 => statsH <= HLimit + NT - 1)
 \* no evaluation is started after the workers have been told to stop
 NoLateEval == \A w \in Wk : wpc[w] = "exit" => wtask[w] = None
 \* the final status names the condition that stopped the run
 StatusJustified ==
-    /\ final = "flimit" => statsF >= FLimit
-    /\ final = "ilimit" => iters >= ILimit
-    /\ final \in {"flimit", "ilimit", "converged", "probstatus", "fail", "mconv", "none"}
+    /\ final = "flimit" => (FLimit > 0 /\ statsF >= FLimit)
+    /\ final = "glimit" => (GLimit > 0 /\ statsG >= GLimit)
+    /\ final = "hlimit" => (HLimit > 0 /\ statsH >= HLimit)
+    /\ final = "ilimit" => (ILimit > 0 /\ iters >= ILimit)
+    /\ final \in {"flimit", "glimit", "hlimit", "ilimit", "converged", "probstatus", "fail", "mconv", "none"}
     /\ AllDone => final # "none"
 Drained == AllDone => ops = <<>> /\ res = <<>>
-Termination == <>AllDone
+\* every run of the sequence made with one Method value terminates
+Termination == <>LastDone
+\* a re-initialised run starts from the state of Init (action property): nothing is carried over
+ReInitIsInit == [][run' = run + 1 => (AllDone /\ mstate' = "run" /\ msends' = 0 /\ mheld' = Ids /\ ops' = <<>> /\ res' = <<>>
+                                      /\ ~doneClosed' /\ ~opsClosed' /\ ~resClosed' /\ sstatus' = "none" /\ final' = "none"
+                                      /\ statsF' = 0 /\ statsG' = 0 /\ statsH' = 0 /\ iters' = 0 /\ posts' = 0)]_vars
 =============================================================================
